@@ -80,6 +80,18 @@ pub fn structured(data: &[u8]) -> Result<(), Failure> {
     c08::pipeline_case(&mut case, "structured", which, &g.cfgs)
 }
 
+/// schema text = the bytes as an introspection result (`.json` schema file), with a trivial operation: everything the
+/// CLI runs for such a schema (C08 campaign introspection-json, here coverage-guided on the JSON text itself)
+pub fn json_schema(text: &str) -> Result<(), Failure> {
+    if text.len() > 16384 || text.bytes().filter(|b| *b == b'[' || *b == b'{').count() > 4000 {
+        return Ok(());
+    }
+    let g = glue();
+    let ops = vec![(std::path::PathBuf::from("/p/ops.graphql"), "query Q { __typename }\n".to_string())];
+    let gate = g.excluded.contains("introspection_invalid_schema");
+    c08::run_pipeline_json(text, &ops, &g.cfgs[0], &serde_json::json!({"schema_json": text}), gate).map(|_| ())
+}
+
 /// like `structured`, printing the generated texts first (debugging aid for artifacts)
 pub fn structured_verbose(data: &[u8]) -> Result<(), Failure> {
     if data.is_empty() {
